@@ -170,11 +170,33 @@ class Check(PropertyCheck):
                 back = {"right": "<", "left": ">", "down": "^", "up": "v", "downright": "^", "upleft": "v",
                         "downleft": "^", "upright": "v"}[d]
                 out.append(("arrowbullet", d, ln, self.rng.choice("*oO"), back, self.rng.below(10), self.rng.below(5)))
+        # a sloped bullet line whose bounding box holds a `{tag}` (the line takes the tag as a class and keeps its marker)
+        for d in ("downright", "upleft", "downleft", "upright"):
+            for ln in [6, 7, self.rng.range(8, 12)]:
+                out.append(("tagged", d, ln, self.rng.choice("*oO"), self.rng.choice(["{a}", "{b1}", "{a,w}"]),
+                            self.rng.below(10), self.rng.below(5)))
         return out
 
     @staticmethod
     def multi_bullet_text(kind, d, ln, b1, b2, k, n):
         """returns (text, [(cell, bullet char)])"""
+        if kind == "tagged":
+            t, cells, endc = draw_run(d, ln + 1, b1, k, n)
+            rows = t.split("\n")
+            allc = cells + [endc]
+            xs = [c[0] for c in allc]
+            # a row strictly inside the run; the tag goes on the side where the box of the line has free cells
+            c = cells[len(cells) // 2 + 1] if len(cells) > 3 else cells[1]
+            row = rows[c[1]]
+            left_room = c[0] - min(xs)
+            right_room = max(xs) - c[0]
+            tag = b2
+            if right_room >= len(tag) + 2:
+                row = row.ljust(c[0] + 2) + tag
+            elif left_room >= len(tag) + 2:
+                row = row[: c[0] - 1 - len(tag)].ljust(c[0] - 1 - len(tag)) + tag + row[c[0] - 1:]
+            rows[c[1]] = row
+            return "\n".join(rows) + "\n\n# Legend:\na = {stroke:red}\n", [(endc, b1)]
         if kind in ("two", "arrowbullet"):
             t, cells, endc = draw_run(d, ln + 1, b1, k, n)
             rows = [list(r) for r in t.split("\n")]
